@@ -36,6 +36,9 @@ CHECKS = {
  "C06": ("exploration", "E1+E3", "bounded-exhaustive enumeration of geometries x optional-input subsets x attributes on the real operators vs scalar ONNX-equation reference; exhaustive split-point histories (two operator calls / two Runs on one Model)",
          "RNN, GRU, LSTM over all (seq,batch,input,hidden) in {1,2,3}^4 x every subset of optional inputs in both spellings x linear_before_reset / input_forget x all activation tuples; outputs must match the ONNX recurrences (gate order iofc / zrh, shapes [seq,1,batch,hidden], [1,batch,hidden]) or, for attributes the statement allows to refuse, be refused - never ignored. Every sequence with seq>=2 is additionally processed in two pieces at every split point, through the Operator API and through two Runs on one Model feeding the returned state tensors back, and must reproduce the unsplit result. A discrimination self-check proves the weights separate the true equations from swapped gate order, swapped bias/peephole slots and flipped attributes.",
          E1NOTE, "DESIGN.md §3 C06"),
+ "C12": ("fault_enumeration", "E5+E1", "exhaustive enumeration of (element type x encoding x shape x bit pattern) payloads and of every payload / dims / data_type fault around them, through the real decoder at three observation points",
+         "All 11 element types x both encodings x all shapes of rank 0..3 (thorough 0..4) with NaN payloads, extremes and, for 8/16-bit types, every value, must decode bit-exactly with the declared shape and type - observed at onnx.TensorFromProto, as an initializer returned by NewModelFromBytes+Run and as a Constant value. Every payload fault (raw length +-1 byte / +-1 element / empty / doubled, typed field +-1 element, no payload, both encodings, negative / zero / huge dims) and every other data_type code with each typed carrier populated must be refused with an error: never other values, another type or a panic.",
+         "Trusted: the reference decoder rule (declared dims x declared type; ONNX carrier fields; little-endian raw) and gorgonia accessors for reading the result.", "DESIGN.md §3 C12"),
 }
 NA_REASON = "check not built yet in this session (see DESIGN.md §7 order of construction); decidable by bounded exhaustive exploration, to be claimed once its explorer exists"
 def main():
